@@ -147,6 +147,9 @@ pub enum Step {
     },
     R {
         got: usize,
+        /// expected size of the window the client offers to read() (0 = not checked)
+        #[serde(default)]
+        want: usize,
     },
     Rpend {},
     Reof {},
